@@ -99,6 +99,11 @@ let listing_matches (s : state) (real : (int list * int list * int list) option)
    A goroutine logs a sub-step after performing it, so another goroutine can observe the effect and log its
    own event first: when an event is not enabled, it is retried after one in-flight sub-step of another
    goroutine (its own log line, arriving later, is then skipped). *)
+let max_window = ref 0 and races = ref 0
+let note_state (s : state) =
+  let w = List.length (List.filter (fun (_, p) -> p = SnFile) s.sns) in
+  if w > !max_window then max_window := w
+
 let run_events (c : config) (s : state) (evs : (string * event) list) : (state, int * int * string) Stdlib.result =
   let rec remove_first x = function [] -> [] | y :: t -> if x = y then t else y :: remove_first x t in
   let rec go s pend pos = function
@@ -107,7 +112,7 @@ let run_events (c : config) (s : state) (evs : (string * event) list) : (state, 
       if List.mem e pend then go s (remove_first e pend) (pos + 1) t
       else
         (match step c s e with
-         | Ok s' -> go s' pend (pos + 1) t
+         | Ok s' -> note_state s'; go s' pend (pos + 1) t
          | Err code ->
            let rec try_inflight = function
              | [] -> Stdlib.Error (pos, int_of_n code, txt)
@@ -116,6 +121,7 @@ let run_events (c : config) (s : state) (evs : (string * event) list) : (state, 
                 | Ok s1 ->
                   (match step c s1 e with
                    | Ok s2 ->
+                     incr races;
                      (match go s2 (x :: pend) (pos + 1) t with
                       | Stdlib.Ok r -> Stdlib.Ok r
                       | Stdlib.Error _ as err -> (match try_inflight xs with Stdlib.Ok r -> Stdlib.Ok r | Stdlib.Error _ -> err))
@@ -223,3 +229,6 @@ let () =
       with Unsupported m -> emit ("unsupported:" ^ m));
       Printf.printf "%s\t%s\n" id (String.concat " | " (List.rev !out))
     | _ -> ())
+  ;
+  (let oc = open_out "model.stats" in
+   Printf.fprintf oc "max_window %d\nlog_order_races %d\n" !max_window !races; close_out oc)
